@@ -18,5 +18,6 @@ func init() {
 		ruleMArgs("M-args"), ruleMOnce("M-once"), ruleMShallow("M-shallow"), ruleRootCause("T-rootcause"),
 		ruleTypestate("E-TS"), ruleOnStack("G-onstack"), ruleCallback("M-cb"), ruleRecover("G-recover"),
 		ruleUserErr("T-usererr"), ruleHomeView("HOME-VIEW"),
+		ruleStaging("E-stage"), ruleAtomProvide("E-ATOM"), ruleAtomDecorate("E-ATOM"), ruleWOwners("W-owners"),
 	}})
 }
